@@ -1237,8 +1237,24 @@ class Idioms3(ast.NodeTransformer):
             vals.append(_SubstNames(m).visit(clone(node.value)))
         return ast.copy_location(ast.Dict(keys=keys, values=vals), node)
 
+    def _true_filters(self, node):
+        for g in node.generators:
+            g.ifs = [c for c in g.ifs if not (isinstance(
+                c, ast.Constant) and c.value is True)]
+
+    def visit_GeneratorExp(self, node):
+        self.generic_visit(node)
+        self._true_filters(node)
+        return node
+
+    def visit_SetComp(self, node):
+        self.generic_visit(node)
+        self._true_filters(node)
+        return node
+
     def visit_ListComp(self, node):
         self.generic_visit(node)
+        self._true_filters(node)
         # [f(v) for v in [a, b, c]] -> [f(a), f(b), f(c)]
         if len(node.generators) != 1:
             return node
@@ -5649,4 +5665,97 @@ def propagate_block_function_aliases(fn):
                         else:
                             blk[0] = ast.copy_location(ast.Pass(), st)
         ast.fix_missing_locations(fn)
+    return done
+
+
+def split_unrolled_locals(fn):
+    """scratch locals of an unrolled loop body (bound afresh in every pass
+    before they are read, never read outside the unrolled statements) get
+    one name per pass: `steps`, `steps__u1`, ..."""
+    groups = {}
+    for par in [fn] + list(_walk_own(fn)):
+        for fld in ("body", "orelse", "finalbody"):
+            blk = getattr(par, fld, None)
+            if not isinstance(blk, list):
+                continue
+            for st in blk:
+                tag = getattr(st, "_unroll", None)
+                if tag is not None:
+                    groups.setdefault((id(blk), tag[0]), {}).setdefault(
+                        tag[1], []).append(st)
+    done = False
+    taken = {n.id for n in ast.walk(fn) if isinstance(n, ast.Name)}
+    for (_, _), passes in groups.items():
+        if len(passes) < 2:
+            continue
+        inside = {id(n) for sts in passes.values() for st in sts
+                  for n in ast.walk(st)}
+        stored = {}
+        for k, sts in passes.items():
+            for st in sts:
+                for n in ast.walk(st):
+                    if isinstance(n, ast.Name) and isinstance(
+                            n.ctx, ast.Store):
+                        stored.setdefault(n.id, set()).add(k)
+        for name, ks in stored.items():
+            if len(ks) < 2:
+                continue
+            if any(isinstance(n, ast.Name) and n.id == name
+                   and id(n) not in inside for n in ast.walk(fn)):
+                continue
+            if any(isinstance(a, ast.arg) and a.arg == name
+                   for a in ast.walk(fn)):
+                continue
+            # in every pass: first bound by a top-level plain assignment
+            # that does not read it, before any other mention
+            ok = True
+            for k in ks:
+                # a plain assignment (not reading the name) in some block,
+                # every other mention of the pass in the statements of that
+                # block that follow it
+                mentions = [n for st in passes[k] for n in ast.walk(st)
+                            if isinstance(n, ast.Name) and n.id == name]
+                found = False
+                holders = [passes[k]]
+                for st in passes[k]:
+                    for x in ast.walk(st):
+                        for f_ in ("body", "orelse", "finalbody"):
+                            b_ = getattr(x, f_, None)
+                            if isinstance(b_, list) and b_ and isinstance(
+                                    b_[0], ast.stmt):
+                                holders.append(b_)
+                for b_ in holders:
+                    for i_, first in enumerate(b_):
+                        if isinstance(first, ast.Assign) and len(
+                                first.targets) == 1 and isinstance(
+                                first.targets[0], ast.Name) and \
+                                first.targets[0].id == name and not any(
+                                    isinstance(n, ast.Name) and n.id == name
+                                    for n in ast.walk(first.value)):
+                            after = {id(n) for s_ in b_[i_ + 1:]
+                                     for n in ast.walk(s_)}
+                            if all(n is first.targets[0] or id(n) in after
+                                   for n in mentions):
+                                found = True
+                            break
+                    if found:
+                        break
+                if not found:
+                    ok = False
+            if not ok or any(isinstance(d, (ast.Lambda, ast.FunctionDef))
+                             and any(isinstance(n, ast.Name)
+                                     and n.id == name for n in ast.walk(d))
+                             for sts in passes.values() for st in sts
+                             for d in ast.walk(st)):
+                continue
+            for k in sorted(ks)[1:]:
+                new = f"{name}__u{k}"
+                if new in taken:
+                    continue
+                taken.add(new)
+                for st in passes[k]:
+                    for n in ast.walk(st):
+                        if isinstance(n, ast.Name) and n.id == name:
+                            n.id = new
+                done = True
     return done
